@@ -298,6 +298,32 @@ func (e *enc) inline(x *ssa.Call, callee *ssa.Function, argVals []ssa.Value, arg
 		ts = append(ts, e.define("ret_"+callee.Name(), e.so.of(callee.Signature.Results().At(j).Type()), t))
 	}
 	e.setResult(x, callee.Signature, ts)
+	// a returned map that is the same map on every return path (typically the parameter handed back)
+	for j := 0; j < nres; j++ {
+		var p0 *Loc
+		same := true
+		for _, r := range fr2.returns {
+			p, ok := r.provs[j]
+			if !ok || (p0 != nil && locKey(p0) != locKey(p)) {
+				same = false
+				break
+			}
+			p0 = p
+		}
+		if same && p0 != nil {
+			if nres == 1 {
+				fr.prov[x] = p0
+			} else {
+				if fr.tupleProvIdx == nil {
+					fr.tupleProvIdx = map[ssa.Value]map[int]*Loc{}
+				}
+				if fr.tupleProvIdx[x] == nil {
+					fr.tupleProvIdx[x] = map[int]*Loc{}
+				}
+				fr.tupleProvIdx[x][j] = p0
+			}
+		}
+	}
 	if len(fr2.returns) == 1 && fr2.retLocs != nil {
 		if nres == 1 {
 			if l := fr2.retLocs[0]; l != nil {
